@@ -46,3 +46,9 @@ Proof.
   rewrite <- H. symmetry. apply obs_in_extend. discriminate.
 Qed.
 Print Assumptions C20_statement_refuted_today.
+
+(* caches, today: the aggregated-mapper cache only ever holds the returned mapper *)
+From TP Require Import Global.Cache Global.CacheProofs Gen.CacheAccess.
+Example today_mapper_cache_safe :
+  centry_verdict ca_serialization_mappers_aggregated_mapper_by_class = CacheSafe.
+Proof. vm_compute. reflexivity. Qed.
